@@ -224,6 +224,12 @@ pub fn generate(em: &mut Emitter, seed: u64, thorough: bool) {
             check_balance(em, &what, &src[..src.len().min(200)], &p, &st, &[], &mut rng, &mut counters);
         }
     }
+    // range-checker gaps of special sizes (powers of three, multiples of the largest stride)
+    for (what, k, src, st) in crate::c03::range_gap_programs(seed, if thorough { 200 } else { 30 }) {
+        if let Ok(p) = assemble(k.as_deref(), &src, false) {
+            check_balance(em, &what, &src[..src.len().min(200)], &p, &st, &[], &mut rng, &mut counters);
+        }
+    }
     // kernels: unused procedures, one procedure called several times, syscalls from nested calls
     let kern = "export.k1 push.1 drop end\nexport.k2 caller dropw padw dropw end\nexport.k3 push.7 mem_store.5 drop end\nexport.k4 swap swap end\n";
     for src in [
